@@ -541,12 +541,54 @@ def regPath (o : Oracles) (host : Str) (validate : Bool) : R Str :=
     let h ← idnaEncode o host
     if validate && notRegName h then .error .valueError else pure h
 
+/-- with validation on, the zone id of an IP literal is screened like a reg-name -/
+def zoneBad (host : Str) (validate : Bool) : Bool :=
+  validate && (partition 37 host).2.1 && notRegName (lower (partition 37 host).2.2)
+
+/-- the IP branch exactly as the model writes it -/
+def ipResV (host : Str) (validate : Bool) : Option (R Str) :=
+  match parseIP (partition 37 host).1 with
+  | some ip =>
+    if validate && (partition 37 host).2.1 && notRegName (lower (partition 37 host).2.2) then some (.error .valueError)
+    else match ip with
+      | .v6 h => some (pure (if (partition 37 host).2.1 then [91] ++ ipv6ToStr h ++ [37] ++ (partition 37 host).2.2 ++ [93]
+                          else [91] ++ ipv6ToStr h ++ [93]))
+      | .v4 ip => some (pure (if (partition 37 host).2.1 then ipv4ToStr ip ++ [37] ++ (partition 37 host).2.2 else ipv4ToStr ip))
+  | none => none
+
+theorem encodeHost_eqV (o : Oracles) (host : Str) (v : Bool) :
+    encodeHost o host v = (looksIP o host >>= fun b =>
+      match (if b then ipResV host v else none) with
+      | some r => r
+      | none => regPath o host v) := by
+  rfl
+
+theorem ipResV_eq (host : Str) (v : Bool) :
+    ipResV host v = (ipRes host).map (fun r => if zoneBad host v then .error .valueError else .ok r) := by
+  unfold ipResV ipRes zoneBad
+  cases parseIP (partition 37 host).1 with
+  | none => rfl
+  | some ip =>
+    cases ip <;> (simp only [Option.map_some]; split <;> rfl)
+
 theorem encodeHost_eq (o : Oracles) (host : Str) (v : Bool) :
     encodeHost o host v = (looksIP o host >>= fun b =>
       match (if b then ipRes host else none) with
-      | some r => pure r
+      | some r => if zoneBad host v then .error .valueError else pure r
       | none => regPath o host v) := by
-  rfl
+  rw [encodeHost_eqV]
+  congr 1
+  funext b
+  cases b with
+  | false => rfl
+  | true =>
+    simp only [↓reduceIte, ipResV_eq]
+    cases ipRes host <;> rfl
+
+theorem zoneBad_false (host : Str) : zoneBad host false = false := by simp [zoneBad]
+
+theorem zoneBad_of_no_sep {host : Str} (v : Bool) (h : (partition 37 host).2.1 = false) : zoneBad host v = false := by
+  simp [zoneBad, h]
 
 theorem encodeHost_noIP (o : Oracles) (host : Str) (v : Bool) (r : Str)
     (hip : parseIP (partition 37 host).1 = none) (h : encodeHost o host v = .ok r) :
@@ -1180,8 +1222,9 @@ theorem parseIPv4_none_of_no_dot (s : Str) (h : 46 ∉ s) : parseIPv4 s = none :
   rw [splitOn_of_not_mem 46 s h]
   simp
 
-theorem encodeHost_cases {o : Oracles} {host : Str} {v : Bool} {r : Str} (h : encodeHost o host v = .ok r) :
-    ipRes host = some r ∨ regPath o host v = .ok r := by
+/-- an accepted host came out of the IP branch (then its zone passed the screen) or out of the reg-name branch -/
+theorem encodeHost_casesV {o : Oracles} {host : Str} {v : Bool} {r : Str} (h : encodeHost o host v = .ok r) :
+    (ipRes host = some r ∧ zoneBad host v = false) ∨ (ipRes host = none ∨ looksIP o host = .ok false) ∧ regPath o host v = .ok r := by
   rw [encodeHost_eq] at h
   cases hl : looksIP o host with
   | error e => rw [hl] at h; cases h
@@ -1189,12 +1232,35 @@ theorem encodeHost_cases {o : Oracles} {host : Str} {v : Bool} {r : Str} (h : en
     rw [hl] at h
     simp only [bind, Except.bind] at h
     cases b with
-    | false => right; simpa using h
+    | false => right; exact ⟨Or.inr rfl, by simpa using h⟩
     | true =>
       simp only [↓reduceIte] at h
       cases hr : ipRes host with
-      | none => rw [hr] at h; right; exact h
-      | some r' => rw [hr] at h; left; cases h; rfl
+      | none => rw [hr] at h; right; exact ⟨Or.inl rfl, h⟩
+      | some r' =>
+        rw [hr] at h
+        simp only at h
+        cases hz : zoneBad host v with
+        | true => rw [hz] at h; cases h
+        | false => rw [hz] at h; left; cases h; exact ⟨rfl, rfl⟩
+
+theorem encodeHost_cases {o : Oracles} {host : Str} {v : Bool} {r : Str} (h : encodeHost o host v = .ok r) :
+    ipRes host = some r ∨ regPath o host v = .ok r := by
+  rcases encodeHost_casesV h with h | h
+  · exact Or.inl h.1
+  · exact Or.inr h.2
+
+/-- the IP branch, when taken with a clean zone, returns the `ipRes` text -/
+theorem encodeHost_ip {o : Oracles} {host : Str} {v : Bool} {r : Str} (hl : looksIP o host = .ok true)
+    (hr : ipRes host = some r) (hz : zoneBad host v = false) : encodeHost o host v = .ok r := by
+  rw [encodeHost_eq, hl]
+  simp [bind, Except.bind, hr, hz, pure, Except.pure]
+
+/-- … and with a dirty zone it is rejected -/
+theorem encodeHost_ip_bad {o : Oracles} {host : Str} {v : Bool} {r : Str} (hl : looksIP o host = .ok true)
+    (hr : ipRes host = some r) (hz : zoneBad host v = true) : encodeHost o host v = .error .valueError := by
+  rw [encodeHost_eq, hl]
+  simp [bind, Except.bind, hr, hz]
 
 theorem parseOctet_digits {p : Str} {v : Nat} (h : parseOctet p = some v) : p.all isDigitC = true := by
   unfold parseOctet at h
